@@ -263,6 +263,8 @@ def interface(ds, name, nmeth=None, rich=True, props=True):
     d = IfaceDesc(name)
     n = (1 + ds.choose(3)) if nmeth is None else nmeth
     names = ds.shuffle(METHOD_NAMES)[:n]
+    if rich and ds.flag(0.04):
+        names[0] = 'L' + 'o' * 253 + 'g'          # 255 characters: the longest legal member name
     for mn in sorted(names):
         if rich:
             # mostly everyday signatures, sometimes anything the type grammar allows
